@@ -32,7 +32,7 @@ CHECKS = {
     "C08": ("interprocedural effect/ordering analysis (mutate-then-raise) + exception-escape sets",
             "Decides: no rejection point (raise or raising callee) is reachable after a document-state write in the edit "
             "closure (reviewed infeasible pairs listed by normalised statement); only KeyError/ValueError escape "
-            "set_value/remove_value; listed refusals (attrpath root, empty segment) guard the write/construction itself; only six reviewed handlers may swallow an exception; the CLI prints only after the library call returned. Also: no local is read before assignment; selector indexes are guarded by the depth test.", "2/C08"),
+            "set_value/remove_value; listed refusals (attrpath root, empty segment) guard the write/construction itself; only six reviewed handlers may swallow an exception; the CLI prints only after the library call returned. Also: no local is read before assignment; no unbound name / undefined self attribute / ill-fitting call; selector indexes are guarded by the depth test.", "2/C08"),
     "C09": ("orientation agreement of the five scope-layer sites + bounds-guard dominance + create/prune shape rules",
             "Decides: all producers/consumers of the layer list use the same outermost-first orientation; selector "
             "indexing is dominated by the depth guard with no intervening resize; one layer is created, exactly the "
@@ -76,7 +76,7 @@ CHECKS = {
     "C20": ("render-count abstract interpretation (no child rendered twice per path) + raise-discipline query",
             "Decides: along any path of any rebuild closure each child expression is rendered at most once (a second "
             "rendering per level is exponential in nesting depth); explicit raises in parse/rebuild are ValueError family. "
-            "Every constant-index subscript in the closure has syntactic evidence of sufficient length (six grammar-shape sites reviewed); other implicit errors on arbitrary text are not decided. Also: no local is read before assignment on any path; a copy of self is not re-rendered.", "2/C20"),
+            "Every constant-index subscript in the closure has syntactic evidence of sufficient length (six grammar-shape sites reviewed); other implicit errors on arbitrary text are not decided. Also: no local is read before assignment on any path; a copy of self is not re-rendered; no unbound name, undefined self attribute or call that does not fit its callee; Optional fields are dereferenced only under a test.", "2/C20"),
 }
 
 NOT_APPLICABLE = {
